@@ -1,0 +1,23 @@
+//go:build verif
+
+package executor
+
+// Verification hook for property C13 (add-only): lets the harness call the
+// unexported sortedPluginNames on a plugin table with chosen names. The table is
+// swapped for the duration of the call only; not safe while a node is executing blocks.
+
+// VerifSortedPluginNames returns the names of the registered plugins as
+// procExecAddBlock/procExecDelBlock iterate them.
+func VerifSortedPluginNames() []string { return sortedPluginNames() }
+
+// VerifSortedPluginNamesOf registers the given names (through RegisterPlugin) in an
+// otherwise empty table, calls sortedPluginNames and restores the real table.
+func VerifSortedPluginNamesOf(names []string) []string {
+	saved := globalPlugins
+	globalPlugins = make(map[string]plugin)
+	defer func() { globalPlugins = saved }()
+	for _, n := range names {
+		RegisterPlugin(n, nil)
+	}
+	return sortedPluginNames()
+}
